@@ -359,9 +359,9 @@ func c47Class(c c47Case) string {
 func c47Shape(c c47Case) string {
 	sh := "absent"
 	if c.Present {
-		sh = fmt.Sprintf("%dvalue", len(c.Values))
+		sh = "present"
 	}
-	return fmt.Sprintf("kind=%s ic=%v inv=%v via=%s hdr=%s", c.Spec.Kind, c.Spec.IC, c.Spec.Inv, c.Spec.Via, sh)
+	return fmt.Sprintf("kind=%s header=%s", c.Spec.Kind, sh)
 }
 
 // c47Ord is a total order: fewest runes first, then kind, pattern, value...
